@@ -264,6 +264,36 @@ def mon_C01(case, obs):
     return out
 
 
+def mon_result_dropped(case, obs):
+    """a result message handled for a job that is still waiting (cached, unresolved) resolves it with
+    that result -- whatever has happened to the worker that sent it in the meantime (it had finished
+    the job: "no job is reported lost unless the worker running an unfinished part of it really
+    exited"; "own result")"""
+    out = []
+    for n, (e, o) in enumerate(zip(case['events'], obs)):
+        if e[0] != 'ready' or n == 0 or o['exc']:
+            continue
+        j = e[1]
+        prev = obs[n - 1]['jobs']
+        if not isinstance(j, int) or j >= len(prev) or j >= len(o['jobs']):
+            continue
+        before, after = prev[j], o['jobs'][j]
+        if not before['incache'] or before['ready']:
+            continue
+        want = ['ok' if e[3] else 'exc', e[4]]
+        if before['kind'] == 'apply' and e[2] is None:
+            if not after['ready'] or after['val'] != want:
+                out.append(('C04:result-of-finished-job-dropped',
+                            'job %d was waiting, its result %s is handled at event %d %s and the job is %s afterwards'
+                            % (j, want, n, e, ('resolved with %s' % (after['val'],)) if after['ready'] else 'still unresolved')))
+        elif before['kind'] == 'map' and e[2] is not None and not e[3]:
+            if not after['ready'] or after['val'] != want:
+                out.append(('C04:result-of-finished-job-dropped',
+                            'map job %d was waiting, the failure %s of part %s is handled at event %d and the job is %s afterwards'
+                            % (j, want, e[2], n, ('resolved with %s' % (after['val'],)) if after['ready'] else 'still unresolved')))
+    return out
+
+
 def job_params(case, obs):
     """(soft, hard, lost timeout) of each job, recomputed from the submission events"""
     cfg = case['cfg']
@@ -689,7 +719,13 @@ def mon_known_C04(case, obs):
                 had_marker.add(k)
                 gone = [p for p in j['wpids'] if p not in live]
                 unfinished = [i for i, p in acked.get(k, {}).items() if p in gone and i not in done.get(k, set())]
-                if gone and not unfinished:
+                foreign = [p for p in gone if p not in acked.get(k, {}).values()]
+                if foreign and not unfinished:
+                    # not D3: the handle lists a worker that never acknowledged any part of THIS job
+                    out.append(('C04:job-marked-lost-for-a-worker-that-never-accepted-it',
+                                '%s job %d is marked lost at event %d because of the exit of worker(s) %s, which never acknowledged a part '
+                                'of it (its parts were acknowledged by %s)' % (j['kind'], k, n, foreign, sorted(set(acked.get(k, {}).values())))))
+                elif gone and not unfinished:
                     out.append(('C04:spurious-loss-finished-parts',
                                 '%s job %d marked lost at event %d although workers %s had finished every part they accepted'
                                 % (j['kind'], k, n, gone)))
@@ -754,7 +790,7 @@ def mon_known_C09(case, obs):
     return out
 
 
-MONITORS = dict(C01=[mon_C01], C04=[mon_C04, mon_known_C04], C05=[mon_C05, mon_C05_jobs, mon_C05_after_result, mon_C05_stopped, mon_known_C05], C06=[mon_C06, mon_C06_timing, mon_C06_owner_gone],
+MONITORS = dict(C01=[mon_C01], C04=[mon_C04, mon_result_dropped, mon_known_C04], C05=[mon_C05, mon_C05_jobs, mon_C05_after_result, mon_C05_stopped, mon_known_C05], C06=[mon_C06, mon_C06_timing, mon_C06_owner_gone],
                 C09=[mon_C09, mon_known_C09], C10=[mon_C10, mon_known_C10], C11=[mon_C11])
 
 
@@ -862,6 +898,91 @@ def sweep_terminate_job():
     return out
 
 
+def sweep_late_result():
+    """the result of a job is handled AFTER its worker has exited: before the pass that reaps it,
+    right after that pass, or later inside the grace period; the worker had finished, so the job
+    keeps its own result and nothing is reported lost; other workers (and the replacement) are there"""
+    out = []
+    for n in (2, 3):
+        for kind in ('apply', 'map', 'imap'):
+            for code in (-9, 155, 0):
+                for ok in (True, False):
+                    for when in (0, 1, 2):
+                        sub = dict(apply=['apply', None, None, 5, None], map=['map', 2, 1], imap=['imap', 2])[kind]
+                        ev = [sub, ['apply', None, None, None, None]]
+                        if kind == 'apply':
+                            acks, readys = [['ack', 0, None, 0]], [['ready', 0, None, ok, 42]]
+                        else:
+                            ev += [['feed'], ['feed']]
+                            acks = [['ack', 0, 0, 0], ['ack', 0, 1, 0]]
+                            readys = [['ready', 0, 0, ok, 42], ['ready', 0, 1, True, 43]]
+                        ev += acks + [['ack', 1, None, 1], ['exit', 0, code]]
+                        if when == 0:
+                            ev += readys + [['tick']]
+                        elif when == 1:
+                            ev += [['tick']] + readys
+                        else:
+                            ev += [['tick'], ['advance', 2], ['tick'], readys[0], ['advance', 1]] + readys[1:]
+                        for _ in range(3):
+                            ev += [['advance', 4], ['tick']]
+                        ev += [['ready', 1, None, True, 8]]
+                        if kind == 'imap':
+                            ev += [['next', 0], ['next', 0], ['next', 0]]
+                        out.append(dict(cfg=dict(n=n, max_restarts=100), events=ev))
+    return out
+
+
+def sweep_two_handles():
+    """two handles of the same kind alive at once (also one after the other); the worker of ONE of
+    them dies: the other one, acknowledged by a live worker or by nobody yet, is not touched and
+    completes with its own results"""
+    out = []
+    for kind in ('imap', 'imapu', 'map', 'apply'):
+        for b_acked in (True, False):
+            for sequential in (False, True):
+                mk = lambda: dict(imap=['imap', 2], imapu=['imapu', 2], map=['map', 2, 1], apply=['apply', None, None, None, None])[kind]
+                part = (lambda i: None) if kind == 'apply' else (lambda i: i)
+                ev = [mk()]
+                if not sequential:
+                    ev += [mk()]
+                ev += [['feed'], ['ack', 0, part(0), 0]]
+                if sequential:
+                    # the first handle is finished by worker 0 before the second one exists
+                    ev += [['ready', 0, part(0), True, 1]] + ([] if kind == 'apply' else [['ack', 0, 1, 0], ['ready', 0, 1, True, 2]])
+                    ev += [mk(), ['feed']]
+                if b_acked:
+                    ev += [['ack', 1, part(0), 1]]
+                ev += [['exit', 0, -9], ['tick'], ['advance', 12], ['tick'], ['advance', 12], ['tick']]
+                if not b_acked:
+                    ev += [['ack', 1, part(0), 1]]
+                ev += [['ready', 1, part(0), True, 7]]
+                if kind != 'apply':
+                    ev += [['ack', 1, 1, 1], ['ready', 1, 1, True, 8]]
+                if kind in ('imap', 'imapu'):
+                    ev += [['next', 1], ['next', 1], ['next', 1]]
+                out.append(dict(cfg=dict(n=2, max_restarts=100), events=ev))
+    return out
+
+
+def sweep_empty_after():
+    """an EMPTY imap / imap_unordered / map submitted after another job, both handed to the task
+    handler in one go; then close() and the shutdown drain: the empty handle is told length 0 and is
+    finished, nothing is left in the cache"""
+    out = []
+    firsts = [[['applyq', None, None, None, None]], [['map', 2, 1]], [['imap', 3]], [['imapu', 1]],
+              [['applyq', None, None, None, None], ['applyq', None, None, None, None]]]
+    for first in firsts:
+        for empty in (['imap', 0], ['imapu', 0], ['map', 0, 1]):
+            for n in (1, 2):
+                ev = list(first) + [empty, ['feed']]
+                k = len(first)
+                if empty[0] != 'map':
+                    ev += [['next', k]]
+                ev += [['close'], ['join_shutdown']]
+                out.append(dict(cfg=dict(n=n), events=ev))
+    return out
+
+
 def sweep_shutdown_loss():
     """a worker dies with a job while the pool is closed (before or after close()); the result
     handler's drain loop (join_shutdown) is what turns the expired marker into a failure, also when no
@@ -946,12 +1067,21 @@ def mon_C01_feed(case, obs):
     return out
 
 
+def mon_C01_result_dropped(case, obs):
+    return [('C01:result-handled-but-job-not-resolved-with-it', w) for _, w in mon_result_dropped(case, obs)]
+
+
+def mon_C01_foreign_loss(case, obs):
+    return [('C01:job-failed-for-a-worker-that-never-accepted-it', w) for s_, w in mon_known_C04(case, obs)
+            if s_ == 'C04:job-marked-lost-for-a-worker-that-never-accepted-it']
+
+
 def mon_C01_unresolved(case, obs):
     return [('C01:job-unresolved-past-hard-limit', w) for s_, w in mon_C05_jobs(case, obs) if s_ == 'C05:not-timed-out-by-scan']
 
 
-SWEEPS = dict(C01=lambda: sweep_loss()[::3] + sweep_limits()[::3] + sweep_terminate_job(), C04=lambda: sweep_loss() + sweep_terminate_job() + sweep_shutdown_loss(), C05=sweep_limits, C06=sweep_limits,
-              C07=lambda: sweep_close_in_pass() + sweep_shutdown_loss(),
+SWEEPS = dict(C01=lambda: sweep_loss()[::3] + sweep_limits()[::3] + sweep_terminate_job() + sweep_late_result()[::2] + sweep_two_handles(), C04=lambda: sweep_loss() + sweep_terminate_job() + sweep_shutdown_loss() + sweep_late_result() + sweep_two_handles(), C05=sweep_limits, C06=sweep_limits,
+              C07=lambda: sweep_close_in_pass() + sweep_shutdown_loss() + sweep_empty_after(),
               C08=lambda: sweep_loss()[::6] + sweep_terminate_job()[::2] + sweep_close_in_pass()[::3], C09=lambda: sweep_loss()[::6] + sweep_resize() + sweep_close_in_pass()[::2],
               C10=sweep_resize)
 
@@ -1106,6 +1236,140 @@ def closed_check(res, pid, n):
             break
     res.add_cov(closed_system_schedules=len(reqs), closed_system_steps=steps, closed_system_maximal=nmax,
                 closed_system_mismatches=len(codes))
+
+
+HEADER_CRASH = '''From Coq Require Import ZArith List Bool.
+From BV Require Import Lib.Cases Model.Pool Model.PoolSys Model.PoolCrash.
+Import ListNotations. Open Scope Z_scope.
+Definition check_case := PoolCrash.check_crash_case.'''
+
+
+def cstep_coq(st):
+    k = st[0]
+    if k == 'submit':
+        return 'CSubmit'
+    if k == 'put':
+        return 'CPut'
+    if k == 'take':
+        return '(CTake %s)' % cz(st[1])
+    if k == 'finish':
+        return '(CFinish %s)' % cz(st[1])
+    if k == 'recv':
+        return 'CRecv'
+    if k == 'kill':
+        return '(CKill %s %s)' % (cz(st[1]), cz(st[2]))
+    if k == 'tick':
+        return 'CTick'
+    if k == 'tick_early':
+        return 'CTickEarly'
+    if k == 'advance':
+        return '(CAdvance %s)' % cz(st[1])
+    raise ValueError(st)
+
+
+def crash_closed_check(res, prop, n):
+    """the closed composition WITH WORKER CRASHES (coq/Model/PoolCrash.v; invariant, liveness and
+    timing are proved of it in Proofs/PoolCrashProofs.v): random schedules of client, task queue,
+    pipe, live workers, result pipe, kills of executing workers, supervision passes and clock
+    advances, with the REAL parent-side code as the parent (fake processes of pool_driver).  The
+    model must allow every step the implementation took, issue the same parent events, agree on
+    whether anything is left to do, and agree on every observation
+    (signature `<prop>:crash-closed-system-differs`).  Property monitors on the implementation's own
+    observations: a job of a killed worker unresolved at a complete end, or stuck with nothing
+    useful left to do (without an early pass: a violation; after an early pass: the recorded
+    finding C04:owner-gone-but-no-marker); a job of a worker that was not killed failed as lost;
+    a lost job reported with the wrong exit status or job id; slots / pool size not restored."""
+    rng = random.Random(res.seed * 7919 + sum(map(ord, prop)) + 17)
+    reqs = []
+    for k in range(n):
+        cfg = dict(n=rng.choice([1, 2, 2, 3, 4]), putlocks=rng.random() < 0.7,
+                   lost=rng.choice([None, 1, 3, 3]))
+        nj = rng.choice([1, 2, 3, 5, 8])
+        spec = dict(seed=rng.randrange(1 << 30), n=nj, kills=rng.choice([0, 1, 1, 2, 3, 5]),
+                    kill_prob=rng.choice([0.2, 0.5, 0.9]), early=rng.random() < 0.3,
+                    idle_prob=rng.choice([0.0, 0.03, 0.08]), stop_after=rng.choice([60, 150, 400, 400]))
+        if rng.random() < 0.4:
+            spec['bad'] = sorted(rng.sample(range(nj), rng.randrange(0, nj + 1)))
+        reqs.append(dict(cfg=cfg, crash=spec))
+    outs = []
+    for part in core.chunks(reqs, 200):
+        outs += run_impl(part, timeout=600)
+    terms = []
+    steps = nmax = nkills = nearly = ndoomed = 0
+
+    def alarm(sig, what, r, o):
+        res.alarms.append(dict(signature=sig, what='closed system with crashes: ' + what,
+                               replay=dict(kind='pool-closed', cfg=r['cfg'], crash=r['crash'], sched=o['sched'],
+                                           events=o['events'])))
+
+    for r, o in zip(reqs, outs):
+        sp = r['crash']
+        steps += len(o['sched'])
+        nmax += bool(o['maximal'])
+        early = any(st[0] == 'tick_early' for st in o['sched'])
+        nearly += early
+        ndoomed += bool(o['doomed'])
+        killed = dict((j, (ref, code)) for j, ref, code in o['killed'])
+        nkills += len(killed)
+        terms.append('((%s, %d%%nat, %s, %d%%nat, %s, %s, %s, %s) : PoolCrash.crash_case)' % (
+            cfg_coq(r['cfg']), sp['n'], clist(sp.get('bad', []), cz), sp.get('kills', 0),
+            clist(o['sched'], cstep_coq), clist(o['events'], ev_coq), clist(o['obs'], obs_coq), cbool(o['maximal'])))
+        # ---- monitors (schedules WITHOUT an early pass: what the theorems promise)
+        last = o['obs'][-1] if o['obs'] else None
+        if o['doomed']:
+            stuck = [k for k in killed if last is not None and k < len(last['jobs']) and not last['jobs'][k]['ready']]
+            alarm(prop + ':owner-gone-but-no-marker' if early else prop + ':job-of-killed-worker-never-resolved',
+                  'jobs %s of killed workers are unresolved and no pass or wait can change that%s' % (
+                      stuck, ' (a pass overtook the result handler)' if early else ''), r, o)
+        if early:
+            continue
+        seen = set()
+        for ob in o['obs']:
+            for k, j in enumerate(ob['jobs']):
+                if k in seen or not j['ready'] or not j['val'] or j['val'][0] != 'lost':
+                    continue
+                seen.add(k)
+                if k not in killed:
+                    alarm(prop + ':job-of-live-worker-failed-as-lost',
+                          'job %d is reported lost (%s) but its worker was never killed' % (k, j['val']), r, o)
+                elif j['val'][1] != killed[k][1] or j['val'][2] != k:
+                    alarm(prop + ':lost-job-reported-with-wrong-exit-status',
+                          'job %d of worker %d (exit status %s) is reported as %s' % (k, killed[k][0], killed[k][1], j['val']), r, o)
+        if o['maximal'] and last is not None:
+            bad = []
+            if len(last['jobs']) != sp['n']:
+                bad.append('%d jobs exist, %d calls made' % (len(last['jobs']), sp['n']))
+            for k, j in enumerate(last['jobs']):
+                if not j['ready']:
+                    bad.append('job %d%s is unresolved at a complete end' % (k, ' (of killed worker %d)' % killed[k][0] if k in killed else ''))
+                elif k in killed:
+                    if j['val'] != ['lost', killed[k][1], k] or j['cb'][0] != 0 or j['cb'][1] != 1:
+                        bad.append('job %d of killed worker: value %s callbacks %s' % (k, j['val'], j['cb'][:2]))
+                else:
+                    isbad = k in sp.get('bad', ())
+                    if j['val'] != (['exc', k] if isbad else ['ok', k]) or j['cb'][0] != (0 if isbad else 1) or j['cb'][1] != (1 if isbad else 0):
+                        bad.append('job %d: value %s callbacks %s' % (k, j['val'], j['cb'][:2]))
+            if len(last['workers']) != r['cfg']['n']:
+                bad.append('%d workers for size %d' % (len(last['workers']), r['cfg']['n']))
+            if r['cfg']['putlocks'] and last['sem'][0] != last['sem'][1]:
+                bad.append('slots free %s of %s' % (last['sem'][0], last['sem'][1]))
+            for b_ in bad[:3]:
+                sig = (prop + ':job-of-killed-worker-never-resolved' if 'of killed worker' in b_ and 'unresolved' in b_
+                       else prop + ':crash-closed-end-not-complete')
+                alarm(sig, 'complete end: ' + b_, r, o)
+    codes, _ = core.coq_eval(prop + 'crash', HEADER_CRASH, core.chunks(terms, 20), timeout=900)
+    for i, code in codes:
+        r, o = reqs[i], outs[i]
+        what = {7001: 'the implementation took a step that is not enabled in the model',
+                7002: 'the parent events issued differ from the model\'s for this schedule',
+                7003: 'the implementation has nothing left to do where the model has work left',
+                7004: 'the model has no work left where the implementation can still move'}.get(code, 'observation differs at event %d' % (code - 1000))
+        alarm(prop + ':crash-closed-system-differs', 'Model/PoolCrash.v vs billiard.pool: ' + what, r, o)
+        if len(res.alarms) > 20:
+            break
+    res.add_cov(crash_closed_schedules=len(reqs), crash_closed_steps=steps, crash_closed_complete=nmax,
+                crash_closed_kills=nkills, crash_closed_with_early_pass=nearly, crash_closed_doomed=ndoomed,
+                crash_closed_mismatches=len(codes))
 
 
 def shrink_history(pid, case, sig, rounds=40):
@@ -1265,6 +1529,8 @@ def mon_C01_unsent(case, obs):
 
 
 MONITORS['C01'].append(mon_C01_unsent)
+MONITORS['C01'].append(mon_C01_result_dropped)
+MONITORS['C01'].append(mon_C01_foreign_loss)
 MONITORS['C01'].append(mon_C01_terminated)
 MONITORS['C01'].append(mon_C01_unresolved)
 MONITORS['C01'].append(mon_C01_feed)
@@ -1309,6 +1575,14 @@ def mon_C02_length(case, obs):
 
 
 MONITORS['C02'] = [mon_C02_length, mon_C01_feed]
+
+
+def mon_C07_wrong_length(case, obs):
+    """a handle told a wrong length can never finish: a job submitted before close() stays unresolved"""
+    return [('C07:handle-submitted-before-close-can-never-finish', w) for _, w in mon_C02_length(case, obs)]
+
+
+MONITORS['C07'].append(mon_C07_wrong_length)
 
 
 # ------------------------------------------------------------------ real-pool scenarios
